@@ -1,8 +1,97 @@
-(** C12: no message from a remote peer can crash a process. *)
-From Gnmi Require Import Base.Prelude Total.IngestModel Total.SubReqModel
+(** C12: no message from a remote peer can crash a process.
+
+    Statements only; proofs in Total/TotalProofs.v.  [cur_flags] /
+    [defect_C12_4] are the defect switches of the models as they stand now (all
+    off: the patches are committed); [all_defects] is the code before them. *)
+From Gnmi Require Import Base.Prelude CTree.CTreeModel Total.IngestModel Total.SubReqModel
   Total.ClientRecvModel Total.CliDisplayModel Total.C12Check Total.TotalProofs.
 
+(** 1. Cache ingest.  For every well-formed cache state and every
+    wire-realisable notification, Cache.GnmiUpdate does not panic. *)
+Theorem ingest_total :
+  forall c n w, st_wf c -> wire_notif n = true -> snd (ingest cur_flags c n) <> GPanic w.
+Proof. exact ingest_total_cur. Qed.
+Print Assumptions ingest_total.
+
+(** ... stated for every combination of the defect switches: a panic is always
+    one of the listed defects, its switch is on, and the message lies in the
+    class predicate K_P uses for it. *)
+Theorem ingest_panic_attributed :
+  forall fl c n c' w, st_wf c -> wire_notif n = true -> ingest fl c n = (c', GPanic w) ->
+    attrib fl n w.
+Proof. exact TotalProofs.ingest_panic_attributed. Qed.
+Print Assumptions ingest_panic_attributed.
+
+(** the state hypothesis is an invariant: it holds initially and is preserved *)
+Theorem ingest_wf_initial :
+  forall names, ~ In ""%string names -> st_wf (new_cstate names).
+Proof. exact st_wf_new. Qed.
+Print Assumptions ingest_wf_initial.
+
+Theorem ingest_wf_preserved :
+  forall fl c n, st_wf c -> wire_notif n = true -> st_wf (fst (ingest fl c n)).
+Proof. exact ingest_preserves_wf. Qed.
+Print Assumptions ingest_wf_preserved.
+
+(** before the patches each class crashed the cache (witnesses in corpus/C12) *)
+Theorem ingest_total_refuted_index_path :
+  exists c n w, st_wf c /\ wire_notif n = true /\ snd (ingest all_defects c n) = GPanic w.
+Proof. exact ingest_total_refuted_idx. Qed.
+Print Assumptions ingest_total_refuted_index_path.
+
+Theorem ingest_total_refuted_meta_nil_value :
+  exists c n w, st_wf c /\ wire_notif n = true /\ snd (ingest all_defects c n) = GPanic w.
+Proof. exact ingest_total_refuted_nilval. Qed.
+Print Assumptions ingest_total_refuted_meta_nil_value.
+
+Theorem ingest_total_refuted_value_equal :
+  exists c n w, st_wf c /\ wire_notif n = true /\ snd (ingest all_defects c n) = GPanic w.
+Proof. exact ingest_total_refuted_equal. Qed.
+Print Assumptions ingest_total_refuted_value_equal.
+
+Theorem meta_refresh_refuted :
+  exists c n, st_wf c /\ wire_notif n = true /\
+    snd (ingest all_defects c n) = GOk /\ exists w, refresh (fst (ingest all_defects c n)) = Panic w.
+Proof. exact meta_refresh_refuted_lemma. Qed.
+Print Assumptions meta_refresh_refuted.
+
+(** 2. A rejected notification (single error) leaves every stored leaf of every
+    target as it was, whatever the switches. *)
+Theorem rejected_preserves :
+  forall fl c n c' e, ingest fl c n = (c', GErr e) -> dump c' = dump c.
+Proof. exact rejected_preserves_gen. Qed.
+Print Assumptions rejected_preserves.
+
+(** 3. Subscribe request validation; the stream context carries a gRPC peer. *)
 Theorem subscribe_request_total :
   forall e f w, se_has_peer e = true -> subscribe e f <> Panic w.
 Proof. exact subscribe_no_panic_with_peer. Qed.
 Print Assumptions subscribe_request_total.
+
+Theorem subscribe_request_total_needs_peer :
+  exists e f w, se_has_peer e = false /\ subscribe e f = Panic w.
+Proof. exact subscribe_needs_peer. Qed.
+Print Assumptions subscribe_request_total_needs_peer.
+
+(** 4. Client receive path: any script of wire-realisable responses, any JSON
+    oracle, any query type. *)
+Theorem client_recv_total :
+  forall jv qt rs connected w,
+    forallb wire_resp rs = true -> snd (ClientRecvModel.run jv qt connected rs) <> Panic w.
+Proof. exact client_recv_total_args. Qed.
+Print Assumptions client_recv_total.
+
+(** 5. CLI display (the assertion in pathmap.add is safe because the client
+    tree is prefix-free, C09). *)
+Theorem cli_display_total :
+  forall jv dt qt with_ts rs w,
+    forallb wire_resp rs = true ->
+    snd (query_display defect_C12_4 jv dt qt with_ts rs) <> Panic w.
+Proof. exact cli_display_total_lemma. Qed.
+Print Assumptions cli_display_total.
+
+Theorem cli_display_total_refuted :
+  exists jv dt qt with_ts rs w,
+    forallb wire_resp rs = true /\ snd (query_display true jv dt qt with_ts rs) = Panic w.
+Proof. exact cli_display_refuted_lemma. Qed.
+Print Assumptions cli_display_total_refuted.
